@@ -136,6 +136,7 @@ func (x *Exec) freshResult(st *State, hint string, res *types.Tuple) *Val {
 }
 
 func (x *Exec) ghostCall(st *State, name string, args []*Val) {
+	x.sinkGuards(st, name)
 	k := "ncalls:" + name
 	cur := st.ghost[k]
 	if cur == nil {
@@ -195,6 +196,18 @@ func (x *Exec) callFunc(st *State, fr *Frame, fn *ssa.Function, args []*Val, bin
 	inlineAll := len(st.frames) > 0 && st.frames[0].con != nil && st.frames[0].con.has("inlinecalls") && fn.Blocks != nil && inModule(fn)
 	if c := x.contractFor(fn); c != nil && !(c.has("inline")) && !inlineAll {
 		x.callByContract(st, fr, c, fn.Signature, fn, args, pos, cont)
+		return
+	}
+	if len(st.frames) > 0 && st.frames[0].con != nil && st.frames[0].con.has("opaquecalls") && fn.Parent() == nil && fn.Blocks != nil && inModule(fn) {
+		// abstraction requested by the contract under verification (guard / effect obligations of
+		// large handlers): module functions without a contract are not inlined but treated as
+		// arbitrary code - everything reachable from the arguments is havoc'd, the call is counted
+		x.note("module call abstracted (opaquecalls): " + name)
+		en := externName(fn)
+		x.ghostCall(st, en, args)
+		res := x.havocCall(st, sanitize(fn.Name()), args, fn.Signature.Results())
+		x.ghostRet(st, en, res)
+		cont(st, res)
 		return
 	}
 	if fn.Blocks != nil && inModule(fn) && fr.depth < maxInlineDepth {
@@ -319,6 +332,13 @@ func (x *Exec) applyContract(st *State, fr *Frame, c *Contract, sig *types.Signa
 	sctx := &SpecCtx{x: x, st: st, env: env, pkg: x.pkgOfContract(c), con: c}
 	for _, cl := range c.of("requires", -1) {
 		t := sctx.evalBool(cl)
+		if len(st.frames) > 0 && st.frames[0].con != nil && st.frames[0].con.has("assumepre") {
+			// abstracted caller (guard / effect obligations only): its own state is havoc'd by the
+			// opaque calls around, so callee preconditions are assumed here and reported
+			x.note("callee precondition assumed (assumepre): " + cname + " requires " + cl.Text)
+			x.assume(st, t, "assumed precondition of "+cname)
+			continue
+		}
 		x.check(st, t, "precondition", cname+"."+cl.ID, x.site(pos), "callee "+cname+" requires "+cl.Text)
 	}
 	for _, a := range args {
@@ -345,8 +365,17 @@ func (x *Exec) applyContract(st *State, fr *Frame, c *Contract, sig *types.Signa
 		// proved contracts speak about the callee's own calls; assumed ones are written for the caller's record
 		sctx.calleeGhost = map[string]*Term{}
 	}
+	// cover: a call site that is reachable must stay reachable once the callee's postconditions
+	// are assumed; otherwise the contract (or its combination with the result model, e.g. fresh()
+	// without the allocates flag) is contradictory and everything after the call verifies vacuously
+	reachableBefore := len(c.of("ensures", -1)) > 0 && !x.discover && x.sess.CheckWith(TTrue) == Sat
 	for _, cl := range c.of("ensures", -1) {
 		x.assume(st, sctx.evalBool(cl), "callee-post "+cname+"."+cl.ID)
+	}
+	if reachableBefore && x.sess.CheckWith(TTrue) == Unsat {
+		if x.aborted == "" {
+			x.aborted = "vacuity: the postconditions assumed for " + cname + " at " + x.site(pos) + " contradict the state at the call (a reachable call has no possible outcome)"
+		}
 	}
 	x.ghostCall(st, cname, args)
 	x.ghostRet(st, cname, res)
@@ -873,4 +902,27 @@ func parseExprOrDie(s string, cl *Clause) ast.Expr {
 		fatalf("%s:%d: cannot parse %q: %v", cl.File, cl.Line, s, err)
 	}
 	return e
+}
+
+// sinkGuards discharges the guard obligations ("sink "callee" requires E") of the function under
+// verification at a call to callee: E is evaluated in the state of the call, before the call is
+// counted. With the contract flag stopatsink the path ends there (what follows the sink cannot
+// undo the call, and the guard is the only obligation of such a contract).
+func (x *Exec) sinkGuards(st *State, name string) {
+	if len(st.frames) == 0 || st.frames[0].con == nil {
+		return
+	}
+	con := st.frames[0].con
+	hit := false
+	for _, cl := range con.Clauses {
+		if cl.Kind != "sink" || cl.Name != name {
+			continue
+		}
+		hit = true
+		t := x.evalClause(st, st.frames[0], con, cl, nil)
+		x.check(st, t, "guard", cl.ID+"@"+name, "", "before calling "+name+": "+cl.Text)
+	}
+	if hit && con.has("stopatsink") {
+		x.assume(st, TFalse, "path ends at sink "+name)
+	}
 }
